@@ -28,7 +28,7 @@ Definition dwarf_static (p : pres) (sec : list fde) (base_svma rel : N) : sclass
   | PHdr =>
     match add64p S_dwarf_svma_add base_svma rel with
     | Ok svma => match hdr_lookup sec svma with None => SErr _ | Some f => fde_static f svma end
-    | _ => SDyn _
+    | _ => SErr _
     end
   | POwnEh | POwnDebug =>
     match index_build sec base_svma with
@@ -39,7 +39,7 @@ Definition dwarf_static (p : pres) (sec : list fde) (base_svma rel : N) : sclass
       | Some f =>
         match add64p S_dwarf_svma_add base_svma rel with
         | Ok svma => fde_static f svma
-        | _ => SDyn _
+        | _ => SRule _ uncovered
         end
       end
     end
@@ -66,14 +66,14 @@ Lemma cb_dwarf_ok p sec base_svma first rel rg m :
   end.
 Proof.
   unfold dwarf_static, cb_dwarf. destruct p.
-  - destruct (add64p S_dwarf_svma_add base_svma rel) as [svma|e|s|]; cbn; try exact I.
+  - destruct (add64p S_dwarf_svma_add base_svma rel) as [svma|e|s|]; cbn; try reflexivity.
     destruct (hdr_lookup sec svma) as [f|]; cbn; [apply with_fde_ok | reflexivity].
   - destruct (index_build sec base_svma) as [idx|]; cbn; [|reflexivity].
     destruct (index_lookup true idx rel) as [f|]; cbn; [|reflexivity].
-    destruct (add64p S_dwarf_svma_add base_svma rel) as [svma|e|s|]; cbn; try exact I. apply with_fde_ok.
+    destruct (add64p S_dwarf_svma_add base_svma rel) as [svma|e|s|]; cbn; try reflexivity. apply with_fde_ok.
   - destruct (index_build sec base_svma) as [idx|]; cbn; [|reflexivity].
     destruct (index_lookup true idx rel) as [f|]; cbn; [|reflexivity].
-    destruct (add64p S_dwarf_svma_add base_svma rel) as [svma|e|s|]; cbn; try exact I. apply with_fde_ok.
+    destruct (add64p S_dwarf_svma_add base_svma rel) as [svma|e|s|]; cbn; try reflexivity. apply with_fde_ok.
 Qed.
 End DwarfStatic.
 
@@ -104,18 +104,18 @@ Definition pe_static (pe : pe_data) (address : N) (first : bool) : sclass rule :
     | UiOk u0 =>
       let epi :=
         if first then
-          if rt_end f <? address then Some (SDyn rule)
+          if rt_end f <? address then Some (SErr _)
           else
             match pe_text pe with
             | None => Some (SErr _)
             | Some (lo, hi, bytes) =>
               if (lo <=? address) && (address <? hi) then
                 let off := N.to_nat (address - lo) in
-                if Nat.ltb (length bytes) off then Some (SDyn _)
+                if Nat.ltb (length bytes) off then Some (SErr _)
                 else
                   let rest := skipn off bytes in
                   let n := N.to_nat (rt_end f - address) in
-                  if Nat.ltb (length rest) n then Some (SDyn _)
+                  if Nat.ltb (length rest) n then Some (SErr _)
                   else
                     match eparse_sequence (firstn n rest) (ui_fpreg u0) with
                     | None => None
@@ -131,7 +131,7 @@ Definition pe_static (pe : pe_data) (address : N) (first : bool) : sclass rule :
       match epi with
       | Some c => c
       | None =>
-        match chain_infos (S (length (pe_uinfos pe))) pe u0 with
+        match chain_infos CHAIN_LIMIT pe u0 with
         | Ok None => SErr _
         | Ok (Some infos) =>
           if address <? rt_begin f then SDyn _
@@ -163,7 +163,7 @@ Proof.
   destruct (ui_at (pe_uinfos pe) (rt_uinfo f)) as [u0| |]; try reflexivity.
   assert (TAIL :
     match
-      match chain_infos (S (length (pe_uinfos pe))) pe u0 with
+      match chain_infos CHAIN_LIMIT pe u0 with
       | Ok None => SErr rule
       | Ok (Some infos) =>
         if address <? rt_begin f then SDyn rule
@@ -175,7 +175,7 @@ Proof.
       end
     with
     | SRule _ r =>
-      fst (match chain_infos (S (length (pe_uinfos pe))) pe u0 with
+      fst (match chain_infos CHAIN_LIMIT pe u0 with
            | Hang => (CbHang, pe_eff_alloc)
            | Ok None => (CbErr rg, pe_eff_alloc)
            | Ok (Some infos) =>
@@ -195,7 +195,7 @@ Proof.
                end
            | _ => (CbHang, pe_eff_alloc)
            end) = CbRule r
-    | SErr _ => fst (match chain_infos (S (length (pe_uinfos pe))) pe u0 with
+    | SErr _ => fst (match chain_infos CHAIN_LIMIT pe u0 with
            | Hang => (CbHang, pe_eff_alloc)
            | Ok None => (CbErr rg, pe_eff_alloc)
            | Ok (Some infos) =>
@@ -215,7 +215,7 @@ Proof.
                end
            | _ => (CbHang, pe_eff_alloc)
            end) = CbErr rg
-    | SDyn _ => match fst (match chain_infos (S (length (pe_uinfos pe))) pe u0 with
+    | SDyn _ => match fst (match chain_infos CHAIN_LIMIT pe u0 with
            | Hang => (CbHang, pe_eff_alloc)
            | Ok None => (CbErr rg, pe_eff_alloc)
            | Ok (Some infos) =>
@@ -236,17 +236,17 @@ Proof.
            | _ => (CbHang, pe_eff_alloc)
            end) with CbRule _ | CbErr _ => False | _ => True end
     end).
-  { destruct (chain_infos (S (length (pe_uinfos pe))) pe u0) as [[infos|]|e|s|]; cbn; try exact I; try reflexivity.
+  { destruct (chain_infos CHAIN_LIMIT pe u0) as [[infos|]|e|s|]; cbn; try exact I; try reflexivity.
     destruct (address <? rt_begin f); [exact I|].
     destruct (rule_for_sequence (map oop_of_uop (all_ops (address - rt_begin f) infos))) as [[r|e|s|]|]; cbn; try exact I; try reflexivity.
     destruct (run_ops_pe u0 (all_ops (address - rt_begin f) infos) rg m); cbn; try exact I.
     apply final_pop_dyn. }
   destruct first; [|exact TAIL].
-  destruct (rt_end f <? address); [exact I|].
+  destruct (rt_end f <? address); [reflexivity|].
   destruct (pe_text pe) as [[[lo hi] bytes]|]; [|reflexivity].
   destruct ((lo <=? address) && (address <? hi)); [|reflexivity].
-  destruct (Nat.ltb (length bytes) (N.to_nat (address - lo))); [exact I|].
-  destruct (Nat.ltb (length (skipn (N.to_nat (address - lo)) bytes)) (N.to_nat (rt_end f - address))); [exact I|].
+  destruct (Nat.ltb (length bytes) (N.to_nat (address - lo))); [reflexivity|].
+  destruct (Nat.ltb (length (skipn (N.to_nat (address - lo)) bytes)) (N.to_nat (rt_end f - address))); [reflexivity|].
   destruct (eparse_sequence _ (ui_fpreg u0)) as [insns|]; [|exact TAIL].
   destruct (rule_for_sequence (map oop_of_einsn insns)) as [[r|e|s|]|]; cbn; try exact I; try reflexivity.
   destruct (run_epilog true u0 insns rg m); cbn; try exact I. apply final_pop_dyn.
